@@ -824,6 +824,7 @@ func main() {
 	nseq := fs.Int("nseq", 120, "lockstep scripts")
 	nstress := fs.Int("nstress", 1500, "longer free-running histories judged in Go only")
 	seqLen := fs.Int("seqlen", 30, "")
+	nclose := fs.Int("nclose", 20000, "directed close-race mini histories (60 of them also to Coq)")
 	fs.Parse(os.Args[2:])
 
 	rng := vx.NewRng(*seed)
@@ -987,6 +988,63 @@ func main() {
 			}
 		}
 	}
+	// ---- close races: a few writes first (sequentially), then one mutator, one Close and readers released together
+	runClose := func(count, toCoq int) {
+		g := &gen{r: rng.Fork()}
+		for n := 0; n < count && hangs < 3; n++ {
+			scripts := make([][]call, 3+g.r.Intn(2))
+			for i := 0; i < 2; i++ { // goroutine 0 prepares, then races as a reader
+				scripts[0] = append(scripts[0], call{Kind: "set", V: 0, K: vx.Pick(g.r, universe), Val: g.value(0)})
+			}
+			for t := range scripts {
+				var c call
+				for {
+					cs := g.call(t, 0)
+					c = cs[0]
+					isMut := c.Kind == "set" || c.Kind == "del" || c.Kind == "delprefix" || c.Kind == "clear"
+					isRead := c.Kind == "get" || c.Kind == "has" || c.Kind == "iter"
+					if len(cs) == 1 && ((t == 1 && isMut) || (t != 1 && isRead)) {
+						break
+					}
+				}
+				if t == 2 {
+					c = call{Kind: "close", V: g.r.Intn(len(views))}
+				}
+				scripts[t] = append(scripts[t], c)
+			}
+			// rounds 0,1: only goroutine 0 has calls; round 2: everybody
+			for t := 1; t < len(scripts); t++ {
+				scripts[t] = append([]call{{Kind: "flush", V: 0}, {Kind: "flush", V: 0}}, scripts[t]...)
+			}
+			h, fails, hang := runFree(scripts, []int{0}, true, 20*time.Second)
+			if hang != nil {
+				hangs++
+				st.Fail(hangInfo{Kind: "hang", Seed: *seed, Index: n, InFlight: hang})
+				continue
+			}
+			for _, f := range fails {
+				st.Fail(map[string]any{"kind": "flushkv-composition", "what": f, "history": h})
+			}
+			st.Case(histKey(h), conflicts(h) > 0)
+			st.Count("mode:closerace")
+			applied := false // a write that was applied although the Close had already taken effect for somebody else
+			for _, r := range h {
+				if r.Ret.Kind == "closed" {
+					applied = true
+				}
+			}
+			if applied {
+				st.Count("closerace:with-closed-results")
+			}
+			if !linearizable(h) {
+				st.Fail(map[string]any{"kind": "not-linearizable", "mode": "closerace", "seed": *seed, "index": n, "history": h})
+			}
+			if n < toCoq {
+				addCase("CLin "+vx.ListOf(h, rec.coq), map[string]any{"mode": "closerace", "index": n, "history": h})
+			}
+		}
+	}
+	runClose(*nclose, 60)
 	runBatch(*nlin, true, 6, 12, "lin")
 	runBatch(*nstress, false, 16, 40, "stress")
 
